@@ -34,6 +34,12 @@ inline void c07_access( const char* /*unused*/, const N need, const H have ) noe
 #define TAO_PEGTL_VERIF_ACCESS( what, need, have ) c07_access( what, need, have )
 
 #include <tao/pegtl.hpp>
+#include <tao/pegtl/contrib/integer.hpp>
+#include <tao/pegtl/contrib/raw_string.hpp>
+#include <tao/pegtl/contrib/uint32.hpp>
+#include <tao/pegtl/contrib/uri.hpp>
+#include <tao/pegtl/contrib/utf16.hpp>
+#include <tao/pegtl/contrib/utf32.hpp>
 
 #include <algorithm>
 #include <array>
@@ -552,6 +558,18 @@ namespace g
    struct abd  : string< 'a', 'b' > {};        // action discards after every attempt
    struct ud   : utf8::any {};                 // action discards on success
    struct nonl : not_one< '\r', '\n' > {};
+   // rule classes beyond the core set: negated sets that may consume the line ending, multi-byte
+   // units of the contrib encodings, contrib rules with their own size()/peek loops
+   struct nsemi : not_one< ';' > {};
+   struct semi : one< ';' > {};
+   struct u16  : utf16_be::any {};
+   struct u32  : utf32_le::any {};
+   struct w32  : uint32_be::any {};
+   struct rac  : range< 'a', 'c' > {};
+   struct nrz  : not_range< 'a', 'z' > {};
+   struct oct  : uri::dec_octet {};
+   struct raw  : raw_string< '[', '=', ']' > {};
+   struct unum : unsigned_rule {};
 
    // grammars; `discard` only at documented-safe points: after a complete token at the top of a
    // star<> iteration, outside every rule that has an apply() action, and where no enclosing
@@ -589,6 +607,14 @@ namespace g
    // known finding (see known_findings.json): everything asks for size( size_t( -1 ) )
    struct G30 : everything {};
    struct G31 : seq< a, everything > {};
+   struct G32 : seq< star< sor< nsemi, semi > >, eof > {};
+   struct G33 : seq< star< u16 >, star< x > > {};
+   struct G34 : seq< star< u32 >, star< x > > {};
+   struct G35 : seq< star< w32 >, star< x > > {};
+   struct G36 : seq< star< sor< rac, nrz > >, star< x > > {};
+   struct G37 : seq< list< oct, one< '.' > >, eof > {};
+   struct G38 : seq< star< sor< raw, x > >, eof > {};
+   struct G39 : seq< star< sor< unum, x > >, eof > {};
    // clang-format on
 }  // namespace g
 
@@ -619,6 +645,16 @@ template<> struct act< g::abcd > : rec_discard_on_success< 22 > {};
 template<> struct act< g::abd > : rec_discard_always< 23 > {};
 template<> struct act< g::ud > : rec_discard_on_success< 24 > {};
 template<> struct act< g::nonl > : rec< 25 > {};
+template<> struct act< g::nsemi > : rec< 26 > {};
+template<> struct act< g::semi > : rec< 27 > {};
+template<> struct act< g::u16 > : rec< 28 > {};
+template<> struct act< g::u32 > : rec< 29 > {};
+template<> struct act< g::w32 > : rec< 30 > {};
+template<> struct act< g::rac > : rec< 31 > {};
+template<> struct act< g::nrz > : rec< 32 > {};
+template<> struct act< g::oct > : rec< 33 > {};
+template<> struct act< g::raw > : rec< 34 > {};
+template<> struct act< g::unum > : rec< 35 > {};
 // clang-format on
 
 template< typename Rule, typename Input >
@@ -901,7 +937,7 @@ static constexpr std::size_t WRAP_LOOKAHEAD = std::size_t( 1 ) << 40;
 
 // only the grammars of this part are instantiated (if constexpr inside a template)
 template< int I, typename R >
-void reg( std::vector< gram >& v, const char* text, const char* alphabet, const std::size_t la, const std::size_t dm, std::vector< std::string > tokens )
+void reg( std::vector< gram >& v, const char* text, const std::string& alphabet, const std::size_t la, const std::size_t dm, std::vector< std::string > tokens )
 {
    if constexpr( ( I % C07_NPARTS ) == C07_PART ) {
       v.push_back( gram{ I, text, alphabet, la, dm, std::move( tokens ), &run_class< R > } );
@@ -945,6 +981,14 @@ static std::vector< gram > grammars()
    C07_G( 29, G29, "seq< star< not_one<'\\r','\\n'> >, eolf, star< any > >", "a\r\n", 2, 0, "a", "\r\n", "\n", "a\r" );
    C07_G( 30, G30, "everything", "abc", WRAP_LOOKAHEAD, 0, "abc", "a", "def" );
    C07_G( 31, G31, "seq< one<'a'>, everything >", "abc", WRAP_LOOKAHEAD, 0, "abc", "a", "def" );
+   C07_G( 32, G32, "seq< star< sor< not_one<';'>, one<';'> > >, eof >", "a;\n", 1, 0, "a", ";", "\n", "a\nb;" );
+   C07_G( 33, G33, "seq< star< utf16_be::any >, star< any > >", "\xd8\xdc\x01", 4, 0, "\xd8\x3d\xde\x01", "\x01\x61", "\xd8\x01", "\xdc\x01", "\xd8" );
+   C07_G( 34, G34, "seq< star< utf32_le::any >, star< any > >", std::string( "\x01\x00\xd8", 3 ), 4, 0, std::string( "\x61\x00\x00\x00", 4 ), std::string( "\x00\xf6\x01\x00", 4 ), std::string( "\x00\xd8\x00\x00", 4 ), std::string( "\x00\x00\x11\x00", 4 ), "\x61" );
+   C07_G( 35, G35, "seq< star< uint32_be::any >, star< any > >", "ab", 4, 0, "abab", "a", "ba" );
+   C07_G( 36, G36, "seq< star< sor< range<'a','c'>, not_range<'a','z'> > >, star< any > >", "ad\n", 1, 0, "a", "\n", "b\n", "d" );
+   C07_G( 37, G37, "seq< list< uri::dec_octet, one<'.'> >, eof >", "25.", 4, 0, "255", "25", "2550", "1.", ".", "0" );
+   C07_G( 38, G38, "seq< star< sor< raw_string<'[','=',']'>, any > >, eof >", "[=]a", 64, 0, "[[a]]", "[=[a]=]", "[=[a]]=]", "[[", "]]", "[==[\n]=]]==]" );
+   C07_G( 39, G39, "seq< star< sor< unsigned_rule, any > >, eof >", "01a", 64, 0, "0", "12", "a", "007" );
    return v;
 }
 
@@ -972,7 +1016,7 @@ struct tally
 {
    std::size_t inputs = 0, runs = 0, overflow = 0, matched = 0, failed = 0, raised = 0, mismatches = 0, nontrivial = 0;
    std::vector< std::string > lines;                // MISMATCH lines (first per class kind)
-   std::vector< int > reported = std::vector< int >( 32, 0 );
+   std::vector< int > reported = std::vector< int >( 40, 0 );
 };
 
 static const std::size_t MAXS[] = { 1, 2, 3, 4, 5, 6, 7, 8, 16 };
@@ -1024,7 +1068,7 @@ static void compare( const gram& G, const spec& s, const std::string& data, cons
       return;
    }
    ++t.mismatches;
-   const int ki = static_cast< int >( s.k ) + ( ( why == "EVERYTHING-WRAP" ) ? 16 : 0 );
+   const int ki = static_cast< int >( s.k ) + ( ( why == "EVERYTHING-WRAP" ) ? 20 : 0 );
    if( t.reported[ ki ]++ == 0 ) {
       std::string l = "MISMATCH grammar=" + std::to_string( G.index ) + " class=" + cls_name( s.k );
       l += " maximum=" + std::to_string( s.maximum ) + " chunk=" + std::to_string( s.chunk );
